@@ -33,6 +33,7 @@ import (
 	"io"
 	"net/http"
 	"net/url"
+	"runtime"
 	"runtime/debug"
 	"runtime/metrics"
 	"strings"
@@ -170,22 +171,23 @@ func withholdBig() bool {
 // frame streams
 
 type frameOpts struct {
-	entry    int
-	state    ws.State
-	utf8     bool
-	ext      bool
-	inflate  bool
-	max      int64
-	eofData  bool
-	handle   bool // top-level control frames go to the control handler (else their payload is read/discarded)
-	discard  bool // data messages are discarded instead of read
-	skip     bool // SkipHeaderCheck (never combined with the control handler)
-	noCipher bool // ControlHandler.DisableSrcCiphering
-	inter    int  // what Reader.OnIntermediate is (inter* constants)
-	onCont   bool // Reader.OnContinuation installed (reads a few bytes of the fragment)
-	cont     bool // Reader entry: go on with NextFrame after a message-level error that left the transport at a frame start
-	chunks   []int
-	bufSize  int
+	entry      int
+	state      ws.State
+	utf8       bool
+	ext        bool
+	inflate    bool
+	max        int64
+	eofData    bool
+	handle     bool // top-level control frames go to the control handler (else their payload is read/discarded)
+	discard    bool // data messages are discarded instead of read
+	skip       bool // SkipHeaderCheck (never combined with the control handler)
+	noCipher   bool // ControlHandler.DisableSrcCiphering
+	inter      int  // what Reader.OnIntermediate is (inter* constants)
+	onCont     bool // Reader.OnContinuation installed (reads a few bytes of the fragment)
+	manyFrames bool // the stream holds enough frames for the stack-depth oracle to be meaningful
+	cont       bool // Reader entry: go on with NextFrame after a message-level error that left the transport at a frame start
+	chunks     []int
+	bufSize    int
 }
 
 // What the Reader entry installs as OnIntermediate.
@@ -319,6 +321,7 @@ func execFrames(data []byte) (deep bool, err error) {
 			}
 		}
 	}
+	o.manyFrames = len(wk) > depthSlack/2
 	before := heapAllocs()
 	err = guard(frameEntries[o.entry], func() error {
 		var e error
@@ -327,7 +330,7 @@ func execFrames(data []byte) (deep bool, err error) {
 	})
 	if err == nil && !o.inflate {
 		if got, budget := heapAllocs()-before, allocBudget(len(stream), len(wk)); got > budget {
-			err = fmt.Errorf("%s allocated %d bytes while decoding a stream of %d bytes in %d frames (budget %d = 8 MiB + 32 x bytes + 48 KiB x frames; the largest announced length is %d): allocation follows what the peer announces, not what it sent",
+			err = fmt.Errorf("%s allocated %d bytes while decoding a stream of %d bytes in %d frames (budget %d = 8 MiB + 32 x bytes + 128 KiB x frames; the largest announced length is %d): allocation follows what the peer announces, not what it sent",
 				frameEntries[o.entry], got, len(stream), len(wk), budget, maxAnnounced(wk))
 		}
 	}
@@ -348,9 +351,9 @@ func maxAnnounced(ws []walked) (m int64) {
 // library's fixed first buffers (1 MiB payload pre-allocation, bufio buffers),
 // a multiple of the input for buffers grown by doubling or by io.ReadAll, and
 // a per-frame allowance for the fixed allocations of the helpers (the control
-// handler's io.Copy alone takes a 32 KiB buffer per answered ping).
+// handler's io.Copy alone takes a 32 KiB buffer per answered ping, and some entries make two passes).
 func allocBudget(n, frames int) uint64 {
-	return 8<<20 + 32*uint64(n) + 48<<10*uint64(frames)
+	return 8<<20 + 32*uint64(n) + 128<<10*uint64(frames)
 }
 
 // heapAllocs is the cumulative number of bytes allocated on the heap by this
@@ -365,9 +368,52 @@ func heapAllocs() uint64 {
 	return s[0].Value.Uint64()
 }
 
+// depthSrc hands a tx.Src to the library and records, at every Read, how many
+// call frames are on the goroutine's stack. The library reaches its transport
+// through a handful of fixed call paths, so the spread between the shallowest
+// and the deepest Read of one run is a small constant; a spread that grows
+// with the NUMBER of frames the peer sends is recursion driven by peer input
+// (stack exhaustion is not recoverable).
+type depthSrc struct {
+	*tx.Src
+	on       bool // recording costs a stack walk per Read: only for streams with enough frames to matter
+	min, max int
+}
+
+// depthPCs is scratch space for runtime.Callers (the targets are synchronous
+// and run one at a time in a process).
+var depthPCs [1024]uintptr
+
+// depthSlack is far above the spread of the unchanged tree (the deepest path,
+// control handler inside an inflating reader, is some 25 frames above the
+// shallowest).
+const depthSlack = 96
+
+func (d *depthSrc) Read(p []byte) (int, error) {
+	if !d.on {
+		return d.Src.Read(p)
+	}
+	n := runtime.Callers(0, depthPCs[:])
+	if d.min == 0 || n < d.min {
+		d.min = n
+	}
+	if n > d.max {
+		d.max = n
+	}
+	return d.Src.Read(p)
+}
+
+func (d *depthSrc) oracle(what string) error {
+	if d.max-d.min > depthSlack {
+		return fmt.Errorf("%s: the call stack at the transport's Read was between %d and %d frames deep while decoding %d bytes: stack use grows with the number of frames the peer sends (recursion)", what, d.min, d.max, len(d.Src.Data))
+	}
+	return nil
+}
+
 func runFrames(o frameOpts, stream []byte) (deep bool, err error) {
 	src := tx.NewSrc(stream, o.chunks)
 	src.EOFWithData = o.eofData
+	ds := &depthSrc{Src: src, on: o.manyFrames}
 	rec := newRec(len(stream))
 	what := frameEntries[o.entry]
 	switch what {
@@ -413,7 +459,7 @@ func runFrames(o frameOpts, stream []byte) (deep bool, err error) {
 				break
 			}
 			var e error
-			msgs, e = wsutil.ReadMessage(src, o.state, msgs[:0])
+			msgs, e = wsutil.ReadMessage(ds, o.state, msgs[:0])
 			if e != nil {
 				break
 			}
@@ -427,7 +473,7 @@ func runFrames(o frameOpts, stream []byte) (deep bool, err error) {
 		}
 		n := 0
 		for {
-			if _, _, e := wsutil.ReadData(tx.RW{Reader: src, Writer: rec}, o.state); e != nil {
+			if _, _, e := wsutil.ReadData(tx.RW{Reader: ds, Writer: rec}, o.state); e != nil {
 				break
 			}
 			n++
@@ -460,6 +506,9 @@ func runFrames(o frameOpts, stream []byte) (deep bool, err error) {
 			}
 		}
 	}
+	if e := ds.oracle(what); e != nil {
+		return true, e
+	}
 	return deep, srcOracle(what, src, rec)
 }
 
@@ -474,6 +523,7 @@ func preCheck(o frameOpts, stream []byte, entry string) error {
 }
 
 func preCheckWith(p frameOpts, stream []byte, entry string) error {
+	p.manyFrames = len(stream) > depthSlack
 	src := tx.NewSrc(stream, p.chunks)
 	src.EOFWithData = p.eofData
 	if _, err := runReader(p, src, newRec(len(stream))); err != nil {
@@ -559,7 +609,8 @@ func sip(viol *error) wsutil.FrameHandlerFunc {
 // runReader drives a wsutil.Reader to the end of the stream.
 func runReader(o frameOpts, src *tx.Src, rec *capRec) (deep bool, err error) {
 	var ms wsflate.MessageState
-	rd := &wsutil.Reader{Source: src, State: o.state, CheckUTF8: o.utf8, MaxFrameSize: o.max, SkipHeaderCheck: o.skip}
+	ds := &depthSrc{Src: src, on: o.manyFrames}
+	rd := &wsutil.Reader{Source: ds, State: o.state, CheckUTF8: o.utf8, MaxFrameSize: o.max, SkipHeaderCheck: o.skip}
 	if o.ext {
 		rd.Extensions = []wsutil.RecvExtension{&ms}
 	}
@@ -672,6 +723,9 @@ func runReader(o frameOpts, src *tx.Src, rec *capRec) (deep bool, err error) {
 	deep = frames > 0
 	if viol != nil {
 		return true, fmt.Errorf("message reader: %v", viol)
+	}
+	if e := ds.oracle("wsutil.Reader"); e != nil {
+		return true, e
 	}
 	if o.max > 0 {
 		for _, w := range walk(src.Data) {
